@@ -285,11 +285,13 @@ SPECS = {
         "assumptions": DICT_ASSUME,
     },
     "C16": {
-        **_meta('Every unsupported (kind, operation) pair is called with generated arguments, result must be null/0, and the object is re-queried afterwards.', 'property-based testing (rapidcheck), fail-safe oracle + follow-up round trip'),
+        **_meta('Every unsupported (kind, operation) pair is called with generated arguments, result must be null/0, and the object is re-queried afterwards; unknown type tags and every foreign kind loader are tried on a valid image and must yield NULL.', 'property-based testing (rapidcheck), fail-safe oracle + follow-up round trip'),
         "stages": dict_stages(ALL, 50, 8),
         "rule": "case as C01; every operation the kind does not provide is called with well-formed arguments "
-                "(result must be NULL / 0 / empty) and followed by a locate+extract of a member on the same object. "
-                "non-trivial = >=1 unsupported call followed by a correct supported call",
+                "(result must be NULL / 0 / empty) and followed by a locate+extract of a member on the same object; then the "
+                "case's own image is offered to StringDictionary::load under ~60 unknown 32-bit tags (neighbours of known tags, known "
+                "tags with high bits, random; body = rest of a valid image | random | empty) and to every other kind's own loader: all "
+                "must return NULL without a sanitizer report. non-trivial = >=1 unsupported call followed by a correct supported call",
         "assumptions": DICT_ASSUME,
     },
 }
